@@ -28,6 +28,52 @@ theorem eraseDups_of_nodup {α : Type} [BEq α] [LawfulBEq α] (l : List α) (h 
       | true => exact absurd (by rw [← eq_of_beq hba]; exact hb) ha
     rw [this, ih hr]
 
+theorem eraseDups_length_le {α : Type} [BEq α] [LawfulBEq α] : ∀ (n : Nat) (l : List α), l.length ≤ n → l.eraseDups.length ≤ l.length := by
+  intro n
+  induction n with
+  | zero => intro l h; cases l with
+    | nil => simp
+    | cons a as => simp at h
+  | succ n ih =>
+    intro l h
+    cases l with
+    | nil => simp
+    | cons a as =>
+      rw [List.eraseDups_cons]
+      simp only [List.length_cons] at h ⊢
+      have h1 : (as.filter fun b => !b == a).length ≤ as.length := List.length_filter_le _ _
+      have h2 := ih (as.filter fun b => !b == a) (by omega)
+      omega
+
+theorem nodup_of_eraseDups_length_aux {α : Type} [BEq α] [LawfulBEq α] : ∀ (n : Nat) (l : List α), l.length ≤ n →
+    l.eraseDups.length = l.length → l.Nodup := by
+  intro n
+  induction n with
+  | zero => intro l h _; cases l with
+    | nil => exact List.nodup_nil
+    | cons a as => simp at h
+  | succ n ih =>
+    intro l h heq
+    cases l with
+    | nil => exact List.nodup_nil
+    | cons a as =>
+      rw [List.eraseDups_cons] at heq
+      simp only [List.length_cons] at h heq
+      have h1 : (as.filter fun b => !b == a).length ≤ as.length := List.length_filter_le _ _
+      have h2 := eraseDups_length_le _ (as.filter fun b => !b == a) (Nat.le_refl _)
+      have hfl : (as.filter fun b => !b == a).length = as.length := by omega
+      have hall := List.length_filter_eq_length_iff.1 hfl
+      have hf : as.filter (fun b => !b == a) = as := List.filter_eq_self.2 hall
+      rw [hf] at heq
+      refine List.nodup_cons.2 ⟨?_, ih as (by omega) (by omega)⟩
+      intro ha
+      have := hall a ha
+      simp at this
+
+theorem nodup_of_eraseDups_length {α : Type} [BEq α] [LawfulBEq α] (l : List α)
+    (h : l.eraseDups.length = l.length) : l.Nodup :=
+  nodup_of_eraseDups_length_aux l.length l (Nat.le_refl _) h
+
 theorem takeWhile_congr_mem {α : Type} (p q : α → Bool) (l : List α) (h : ∀ x ∈ l, p x = q x) :
     l.takeWhile p = l.takeWhile q := by
   induction l with
@@ -166,6 +212,15 @@ def applies (s : Sim) (u : Update) : Bool :=
   | none => false
   | some _ => (freeOf s u).length == (setsUpd u).length && (setsUpd u).eraseDups.length == (setsUpd u).length
 
+theorem applies_nodup (s : Sim) (u : Update) (h : applies s u = true) : (setsUpd u).Nodup := by
+  unfold applies at h
+  cases hr : u.resources with
+  | none => rw [hr] at h; cases h
+  | some r =>
+    rw [hr] at h
+    simp only [Bool.and_eq_true, beq_iff_eq] at h
+    exact nodup_of_eraseDups_length _ h.2
+
 theorem simUpdate_none (base s) (u : Update) (h : u.resources = none) :
     simUpdate base s u = ensure base s u.containerId := by
   unfold simUpdate ensure
@@ -250,6 +305,24 @@ namespace Nri.Result
 open Nri.NApi Nri.Ledger
 
 /-! ### the ledger reached by `claimAllPartial` -/
+
+/-- a successful `claimAll` named no item twice -/
+theorem claimAll_ok_nodup (c : Cid) (p : Plugin) (o o' : Owners) (its : List Item)
+    (h : claimAll c p o its = .ok o') : its.Nodup := by
+  induction its generalizing o with
+  | nil => exact List.nodup_nil
+  | cons x rest ih =>
+    simp only [claimAll] at h
+    cases hc : claim o c x p with
+    | error e => rw [hc] at h; cases h
+    | ok o1 =>
+      rw [hc] at h
+      obtain ⟨_, rfl⟩ := (claim_ok_iff o o1 c x p).1 hc
+      have h' : claimAll c p (AList.insert o (c, x) p) rest = .ok o' := h
+      refine List.nodup_cons.2 ⟨?_, ih _ h'⟩
+      intro hx
+      obtain ⟨e, he⟩ := claimAll_fails_of_owned c p _ rest x p (owner_insert_self o c x p) hx
+      rw [he] at h'; cases h'
 
 /-- With distinct items, `claimAllPartial` claims exactly the items before the first owned one,
     and reports no error exactly when that is all of them. -/
